@@ -12,12 +12,13 @@ from fractions import Fraction as F
 
 import numpy as np
 import astropy.units as u
-from astropy.coordinates import Angle
+from astropy.coordinates import Angle, Longitude, Latitude
 
 from pbmc import bind_repo, report
 
 pb = bind_repo()
 Phase = pb.Phase
+FractionalPhase = pb.pulsar.FractionalPhase
 PID = "C07"
 TOL = F(1, 2 ** 52)
 LIM = 2 ** 52
@@ -346,6 +347,13 @@ def addend_objects(n2, f2):
     yield "2-d array", np.array([[x, 1.0], [0.25, x]]), [F(x), F(1), F(0.25), F(x)], (2, 2)
     yield "cycle Quantity", x * u.cycle, [F(x)], ()
     yield "Angle", Angle(x, u.cycle), [F(x)], ()
+    # sibling Angle subclasses (value must survive their wrapping exactly)
+    if -0.5 <= x < 0.5:
+        yield "FractionalPhase", FractionalPhase(x * u.cycle), [F(x)], ()
+    if 0 <= x < 1:
+        yield "Longitude", Longitude(x * u.cycle), [F(x)], ()
+    if abs(x) <= 0.25:
+        yield "Latitude", Latitude(x * u.cycle), [F(x)], ()
     d = x * 360.0
     if abs(d) < 1e6:
         qd = d * u.deg
@@ -484,7 +492,10 @@ def divmod_case(case, res):
                 # in-place / out= forms whose target is the dividend itself
                 if kind != "Phase array":
                     for nm, fn in (("p %= d", lambda q0: q0.__imod__(obj)), ("np.remainder(p, d, out=p)", lambda q0: np.remainder(q0, obj, out=q0)),
-                                   ("np.divmod(p, d, out=(None, p))", lambda q0: np.divmod(q0, obj, out=(None, q0))[1])):
+                                   ("np.divmod(p, d, out=(None, p))", lambda q0: np.divmod(q0, obj, out=(None, q0))[1]),
+                                   # the target is a VIEW of the dividend (another object on the same memory)
+                                   ("np.remainder(p, d, out=p[...])", lambda q0: np.remainder(q0, obj, out=q0[...])),
+                                   ("np.remainder(p[...], d, out=p)", lambda q0: np.remainder(q0[...], obj, out=q0))):
                         q0 = mk(n, f)
                         try:
                             rr = fn(q0)
@@ -492,7 +503,11 @@ def divmod_case(case, res):
                             res.violation(f"divmod|{kind}|{nm}|raised", f"{type(e).__name__}: {e} [{sub}]", case, sub)
                             continue
                         res.transitions += 1
-                        if rr is not q0 or type(q0) is not Phase:
+                        if "[...]" in nm:
+                            if type(rr) is not Phase or not np.shares_memory(rr, q0):
+                                res.violation(f"divmod|{kind}|{nm}|identity", f"result does not live in the given target [{sub}]", case, sub)
+                                continue
+                        elif rr is not q0 or type(q0) is not Phase:
                             res.violation(f"divmod|{kind}|{nm}|identity", f"target not returned [{sub}]", case, sub)
                             continue
                         rv = exact(q0)[0]
